@@ -14,7 +14,7 @@ Local Open Scope string_scope.
 
 (* kinds: A Array<Int>  L List<Int>  U heap Tuple  T Table<Int,Int>  R Tree<Int,Int>
           K Table<String,String>  S String  G range(0,n)  H range(5,5+n)  J range(0,3n,3)
-          V slice(array,0,3n,3) *)
+          V slice(array,0,3n,3)  Z String over a borrowed buffer (alloc class Stack) *)
 Definition contract : list (string * string * list cexn) := [
   ("get_len",  "ALUGHJV", [IndexError]);   ("get_neg",  "ALUGHJV", [IndexError]);
   ("get_far",  "ALUGHJV", [IndexError]);   ("get_max",  "ALUGHJV", [IndexError]);  ("get_min", "ALUGHJV", [IndexError]);
@@ -53,6 +53,11 @@ Definition contract : list (string * string * list cexn) := [
   ("unimplemented", "ALUTRKSGHJV", [ClassError]); ("sort_list", "L", [ClassError]);
   ("unimplemented_member", "ALUTRKSGHJV", [ClassError]); ("unimplemented_member2", "ALUSGHJV", [ClassError]);
   ("cast_wrong", "ALUTRKSGHJV", [ValueError]);
+  (* Z: a String over a borrowed buffer ($S(buf), alloc class Stack): whatever would reallocate or free the buffer *)
+  ("stack_resize_shrink", "Z", [ValueError]); ("stack_resize_one", "Z", [ValueError]); ("stack_resize_same", "Z", [ValueError]);
+  ("stack_resize_grow", "Z", [ValueError]);   ("stack_resize_zero", "Z", [ValueError]);
+  ("stack_concat", "Z", [ValueError]); ("stack_append", "Z", [ValueError]); ("stack_assign", "Z", [ValueError]);
+  ("stack_print", "Z", [ValueError]);  ("stack_destruct", "Z", [ValueError]);
   (* too few format arguments *)
   ("print_fewargs", "S", [FormatError]);   ("print_fewargs_dollar", "S", [FormatError])
 ].
